@@ -156,7 +156,12 @@ func PGenMsg(r *h.Rand, md protoreflect.MessageDescriptor, cfg PValCfg, depth in
 				m.Set(fd, protoreflect.ValueOfMessage(PGenMsg(r, fd.Message(), cfg, depth+1)))
 			}
 		default:
-			m.Set(fd, pScalar(r, fd, cfg))
+			if fd.HasPresence() && r.Chance(30) {
+				// explicit presence: a field set to its zero value is different from an absent one
+				m.Set(fd, fd.Default())
+			} else {
+				m.Set(fd, pScalar(r, fd, cfg))
+			}
 		}
 	}
 	return m
